@@ -36,8 +36,44 @@ const (
 
 var (
 	quals = []string{"nil", "empty", "custom"}
-	modes = []string{"unset", "inplace", "deferred", "dump", "unsorted"}
+	// hostile custom qualifiers: every scenario is additionally planned with ONE of them (rotating),
+	// the oracle demands the qualifier as exactly one identifier in front of every reference.
+	hostile = []string{"dot", "space", "fquote", "oquote", "upper", "unicode"}
+	modes   = []string{"unset", "inplace", "deferred", "dump", "unsorted"}
 )
+
+// qbase maps "custom:<class>" to "custom".
+func qbase(qual string) string {
+	if strings.HasPrefix(qual, "custom") {
+		return "custom"
+	}
+	return qual
+}
+
+// qvalue is the qualifier text of a qualifier class.
+func qvalue(d, qual string) string {
+	switch strings.TrimPrefix(qual, "custom:") {
+	case "dot":
+		return "acme.prod"
+	case "space":
+		return "my tenant"
+	case "fquote": // the OTHER dialect's identifier quote: needs no escaping
+		if d == "mysql" {
+			return "ten\"ant"
+		}
+		return "ten`ant"
+	case "oquote": // the dialect's own identifier quote: must be doubled
+		if d == "mysql" {
+			return "ten`ant"
+		}
+		return "ten\"ant"
+	case "upper":
+		return "TenantA"
+	case "unicode":
+		return "sch\u00e9ma_\u00fc"
+	}
+	return customQ
+}
 
 func planMode(m string) migrate.PlanMode {
 	switch m {
@@ -78,6 +114,9 @@ type Case struct {
 
 	// hand: name of a hand-assembled change set (hand.go); hcl: name of a document pair.
 	Hand string `json:"hand,omitempty"`
+
+	// Hostile is the class of the extra custom qualifier this scenario is planned with.
+	Hostile string `json:"hostile,omitempty"`
 
 	Qual string `json:"qual,omitempty"`
 	Mode string `json:"mode,omitempty"`
@@ -399,11 +438,11 @@ func (r *planResult) text() string {
 func doPlan(d string, changes []schema.Change, qual, mode string) *planResult {
 	res := &planResult{}
 	var opts []migrate.PlanOption
-	switch qual {
+	switch qbase(qual) {
 	case "empty":
 		opts = append(opts, func(o *migrate.PlanOptions) { q := ""; o.SchemaQualifier = &q })
 	case "custom":
-		opts = append(opts, func(o *migrate.PlanOptions) { q := customQ; o.SchemaQualifier = &q })
+		opts = append(opts, func(o *migrate.PlanOptions) { q := qvalue(d, qual); o.SchemaQualifier = &q })
 	}
 	if mode != "unset" {
 		pm := planMode(mode)
@@ -479,7 +518,8 @@ func judge(d, qual, mode string, m meta, u *universe, res, nilRes *planResult, s
 	kinds := strings.Join(topKinds(m), "+")
 	planned := res.Err == ""
 	multi := len(m.Schemas) > 1
-	switch qual {
+	base := qbase(qual)
+	switch base {
 	case "empty":
 		switch {
 		case m.AddDropSch:
@@ -524,12 +564,21 @@ func judge(d, qual, mode string, m meta, u *universe, res, nilRes *planResult, s
 	}
 	seen := map[string]bool{}
 	for _, st := range res.Stmts {
-		if st.SchemaSrc && (qual != "empty" || v.ood != "") {
+		if st.SchemaSrc && (base != "empty" || v.ood != "") {
 			// schema statements are allowed without the empty qualifier, and are the documented
 			// exception in place; nothing is demanded of them.
 			continue
 		}
-		fs, err := checkStmt(d, qual, customQ, u, st, stats)
+		fs, err := checkStmt(d, base, qvalue(d, qual), u, st, stats)
+		if err != nil && qual == "custom:oquote" {
+			// a qualifier holding the dialect's own quote character must be written with the quote
+			// doubled; then the statement tokenizes. One class-level key (no statement head).
+			if k := pre + "qualifier-not-one-identifier"; !seen[k] {
+				seen[k] = true
+				v.viol = append(v.viol, violation{k, fmt.Sprintf("a statement planned with the qualifier %q is not lexically valid %s (%v): the qualifier is not written as one quoted identifier", qvalue(d, qual), d, err), map[string]any{"statement": st.Text, "role": st.Role, "plan": res.text()}})
+			}
+			continue
+		}
 		if err != nil {
 			v.incon = "tokenizer"
 			v.inconDetail = err.Error() + ": " + st.Text
@@ -537,6 +586,11 @@ func judge(d, qual, mode string, m meta, u *universe, res, nilRes *planResult, s
 		}
 		for _, f := range fs {
 			k := f.key(d, qual)
+			if qual == "custom:oquote" {
+				// this class exists for one question only — is the quote inside the qualifier doubled —
+				// and a wrong answer garbles every statement differently: one class-level key.
+				k = pre + "qualifier-not-one-identifier"
+			}
 			if seen[k] {
 				continue
 			}
@@ -613,6 +667,9 @@ func runCase(a *acct, cs Case, verbose bool) {
 		return
 	}
 	qs, ms := quals, modes
+	if cs.Hostile != "" {
+		qs = append(append([]string(nil), quals...), "custom:"+cs.Hostile)
+	}
 	if cs.Qual != "" {
 		qs = []string{"nil", cs.Qual}
 		if cs.Qual == "nil" {
@@ -625,6 +682,9 @@ func runCase(a *acct, cs Case, verbose bool) {
 	for _, mode := range ms {
 		var nilRes *planResult
 		for _, qual := range qs {
+			if strings.Contains(qual, ":") && mode != "unset" && mode != "deferred" && cs.Mode == "" {
+				continue // hostile qualifiers: two modes are enough (the mode only matters to the scope check)
+			}
 			changes, u, err := p.fresh()
 			if err != nil {
 				c.OOD("diff-error")
@@ -634,7 +694,7 @@ func runCase(a *acct, cs Case, verbose bool) {
 				}
 				continue
 			}
-			if why := u.problem(customQ); why != "" {
+			if why := u.problem(customQ, qvalue(cs.Dialect, "custom:"+cs.Hostile)); why != "" {
 				c.Inconclusive("name-spaces")
 				if verbose {
 					fmt.Println("name spaces:", why)
@@ -745,7 +805,11 @@ func run(c *rt.Ctx) {
 			fmt.Fprintf(os.Stderr, "c16: control failed: no %s plan without qualifier mentions the marker\n", d)
 			ok = false
 		}
-		for _, q := range quals {
+		var hq []string
+		for _, h := range hostile {
+			hq = append(hq, "custom:"+h)
+		}
+		for _, q := range append(append([]string(nil), quals...), hq...) {
 			need := []string{"table"}
 			if d == "postgres" {
 				need = append(need, "type", "index")
